@@ -58,6 +58,11 @@ TFlush == /\ Ev.op = "flush"
           /\ UNCHANGED <<fb, bs>>
           /\ Observed(g') /\ DesignAnswers(s', g')
 
+(* a flush that failed before it wrote anything (its first read of the file returned an error) and *)
+(* reported the failure: nothing is known to have changed, nothing is judged until the next flush   *)
+TFlushFail == /\ Ev.op = "flushfail"
+              /\ UNCHANGED <<s, g, fb, bs>>
+
 TReopen == /\ Ev.op = "reopen"
            /\ s' = Reopen(s)
            /\ g' = GReopen(g)
@@ -67,7 +72,7 @@ TReopen == /\ Ev.op = "reopen"
 Init == s = Empty /\ g = G0 /\ fb = <<>> /\ bs = 1 /\ l = 1
 Next == /\ l <= Len(TLog)
         /\ l' = l + 1
-        /\ (TReset \/ TAdd \/ TFlush \/ TReopen)
+        /\ (TReset \/ TAdd \/ TFlush \/ TFlushFail \/ TReopen)
 Spec == Init /\ [][Next]_vars
 
 Constr == Mark(l)
